@@ -452,7 +452,14 @@ class Evaluator:
         return UNKNOWN
 
     def t_Tuple(self, e, st, log, nid):
-        return ("tuple",) + tuple(self.term(x, st, log, nid) for x in e.elts)
+        out: list = []
+        for x in e.elts:
+            t = self.term(x, st, log, nid)
+            if t[0] == "star" and t[1][0] in ("tuple", "list") and not any(y[0] == "star" for y in t[1][1:]):
+                out.extend(t[1][1:])  # (*(a, b), c) == (a, b, c)
+            else:
+                out.append(t)
+        return ("tuple",) + tuple(out)
 
     def t_List(self, e, st, log, nid):
         if not e.elts and log:
